@@ -153,7 +153,7 @@ func RunCheck(id string, opts *Options) (*Report, int) {
 				}
 			}
 			funcGoals[run.FnName] = n
-			if n == 0 {
+			if n == 0 && len(t.C.Clauses) > 0 {
 				rep.Broken = append(rep.Broken, run.FnName+": function under contract generated zero obligations")
 			}
 		}
